@@ -43,6 +43,7 @@ def c06_family(tier, sd=0):
     fam.append(flat_schema([("f32",)]))
     fam.append(flat_schema([("u", 1)] * 8))
     fam.append(flat_schema([("enum", "E1"), ("i", 5), ("enum", "E200"), ("u", 50)], E))
+    fam.append(flat_schema([("u", 2), ("enum", "ignition"), ("u", 3)], {"ignition": mk_enum("ignition", 200)}))
     fam.append(flat_schema([("i", 64)]))
     fam.append(flat_schema([("u", 32), ("i", 32)]))
     fam.append(flat_schema([("i", 8), ("i", 8), ("i", 16), ("i", 32)]))
